@@ -52,6 +52,17 @@ Verdict(o) ==
     \* a streamed (application/octet-stream) request and response body: the bytes, unchanged
     [] o.kind = "stream" -> IF o.outcome = "ok" /\ o.got = o.sent /\ o.rgot = o.rsent THEN "ok" ELSE "viol-streamed-body-delivered-changed"
     [] o.kind = "resp" -> RespVerdict(o)
+    \* a query parameter whose schema is a map of strings (form, explode): the members given arrive
+    \* (an empty map is "nothing": deliverable for an optional parameter only); Dev_MapQueryParameterDropped
+    \* is the recorded finding that the members never reach the handler
+    [] o.kind = "mapparam" ->
+         IF ~o.others THEN "viol-another-parameter-of-the-call-changed"
+         ELSE IF o.outcome = "ok" /\ o.got = o.sent /\ o.mwgot = o.got THEN "ok"
+         ELSE IF o.outcome \in {"client_err", "refused_4xx"} /\ o.sent = Nil /\ o.required THEN "ok"
+         ELSE IF "Dev_MapQueryParameterDropped" \in KnownDeviations /\ o.sent # Nil
+                 /\ ((o.outcome = "ok" /\ o.got = Nil /\ o.mwgot = Nil /\ ~o.required) \/ (o.outcome \in {"refused_4xx", "client_err"} /\ o.required))
+              THEN "known=Dev_MapQueryParameterDropped"
+         ELSE IF o.outcome = "ok" THEN "viol-parameter-delivered-changed" ELSE "viol-core-value-not-delivered"
     [] o.kind = "respd" -> RespDVerdict(o)
     [] o.kind = "media" -> MediaVerdict(o)
     \* a webhook operation (header parameter, JSON body, JSON response) through the generated
